@@ -88,6 +88,13 @@ def gen_docs(tier, seed, tmpl):
                 if isinstance(els[j], dict):
                     els[j]["kid"] = "Lbad%d" % j
         docs.append((None, json.dumps({"keys": els}).encode()))
+    # repeated kids (RFC 7517 4.5 allows them): within one document, and equal to the kid of the item the set already holds (entry 1 / 10)
+    for kidv in ("dup", "pre-existing", "", "a+b/c", "a-b_c"):
+        for ti in range(len(tmpl)):
+            a_, b_ = tmpl[ti], tmpl[(ti + 1) % len(tmpl)]
+            docs.append((None, json.dumps({"keys": [dict(a_, kid=kidv), dict(b_, kid=kidv), dict(a_, kid=kidv)]}).encode()))
+            docs.append((1, json.dumps({"keys": [dict(a_, kid=kidv), dict(b_, kid="other"), dict(b_, kid=kidv)]}).encode()))
+            docs.append((1, json.dumps(dict(a_, kid=kidv)).encode()))
     # elements (and single JWKs inside a set) that themselves carry a member named "keys": still exactly one item each
     for inner in [[], None, "x", 5, {}, [{"kty": "oct", "k": "AAAA", "kid": "inner-1"}], [{"kty": "oct", "k": "AAAA", "kid": "inner-1"}, {"kty": "nope", "kid": "inner-2"}]]:
         for base in (tmpl[0], tmpl[3 % len(tmpl)], {"kty": "nope"}, {}):
